@@ -3,6 +3,7 @@ package props
 import (
 	"bytes"
 	"fmt"
+	"math/big"
 	"regexp"
 	"sort"
 	"strconv"
@@ -471,6 +472,10 @@ func vttProject(s *astisub.Subtitles) vttModel {
 	if s.Metadata != nil && s.Metadata.WebVTTTimestampMap != nil {
 		t := s.Metadata.WebVTTTimestampMap
 		m.TSMap = &[2]int64{int64(t.Local / time.Millisecond), t.MpegTS}
+		// the offset the map describes: MPEGTS ticks of 1/90000 s minus LOCAL (to the nanosecond, truncated)
+		if want := time.Duration(new(big.Int).Quo(new(big.Int).Mul(big.NewInt(t.MpegTS), big.NewInt(1e9)), big.NewInt(90000)).Int64()) - t.Local; t.Offset() != want {
+			m.TSMap[1] = -t.MpegTS - 1 // make the disagreement visible in the denotation
+		}
 	}
 	var ids []string
 	for id := range s.Styles {
@@ -538,11 +543,54 @@ func vttBuild(m vttModel, r *fw.Rand) *astisub.Subtitles {
 		s.Styles["zz-no-inline"] = &astisub.Style{ID: "zz-no-inline"}
 	}
 	for _, rg := range m.Regions {
-		s.Regions[rg.ID] = &astisub.Region{ID: rg.ID, InlineStyle: &astisub.StyleAttributes{WebVTTLines: rg.Lines, WebVTTRegionAnchor: rg.Anchor, WebVTTScroll: rg.Scroll, WebVTTViewportAnchor: rg.Viewport, WebVTTWidth: rg.Width}}
+		reg := &astisub.Region{ID: rg.ID, InlineStyle: &astisub.StyleAttributes{WebVTTLines: rg.Lines, WebVTTRegionAnchor: rg.Anchor, WebVTTScroll: rg.Scroll, WebVTTViewportAnchor: rg.Viewport, WebVTTWidth: rg.Width}}
+		if r.P(1, 4) {
+			// region attributes supplied by the region's style
+			st := &astisub.Style{ID: "region-style-" + rg.ID, InlineStyle: &astisub.StyleAttributes{}}
+			if r.Bool() {
+				st.InlineStyle.WebVTTLines, reg.InlineStyle.WebVTTLines = rg.Lines, 0
+			}
+			if r.Bool() {
+				st.InlineStyle.WebVTTRegionAnchor, reg.InlineStyle.WebVTTRegionAnchor = rg.Anchor, ""
+			}
+			if r.Bool() {
+				st.InlineStyle.WebVTTScroll, reg.InlineStyle.WebVTTScroll = rg.Scroll, ""
+			}
+			if r.Bool() {
+				st.InlineStyle.WebVTTViewportAnchor, reg.InlineStyle.WebVTTViewportAnchor = rg.Viewport, ""
+			}
+			if r.Bool() {
+				st.InlineStyle.WebVTTWidth, reg.InlineStyle.WebVTTWidth = rg.Width, ""
+			}
+			reg.Style = st
+			s.Styles[st.ID] = st
+		}
+		s.Regions[rg.ID] = reg
 	}
 	for _, c := range m.Cues {
 		it := &astisub.Item{StartAt: time.Duration(c.Start) * time.Millisecond, EndAt: time.Duration(c.End) * time.Millisecond, Comments: append([]string(nil), c.Comments...), Index: r.Intn(100)}
 		it.InlineStyle = &astisub.StyleAttributes{WebVTTAlign: c.Align, WebVTTLine: c.Line, WebVTTPosition: c.Position, WebVTTSize: c.Size, WebVTTVertical: c.Vertic}
+		if r.P(1, 4) {
+			// some settings come from the cue's style: the writer falls back on them when the inline value is empty
+			st := &astisub.Style{ID: fmt.Sprintf("cue-style-%d", len(s.Items)), InlineStyle: &astisub.StyleAttributes{}}
+			if r.Bool() {
+				st.InlineStyle.WebVTTAlign, it.InlineStyle.WebVTTAlign = c.Align, ""
+			}
+			if r.Bool() {
+				st.InlineStyle.WebVTTLine, it.InlineStyle.WebVTTLine = c.Line, ""
+			}
+			if r.Bool() {
+				st.InlineStyle.WebVTTPosition, it.InlineStyle.WebVTTPosition = c.Position, ""
+			}
+			if r.Bool() {
+				st.InlineStyle.WebVTTSize, it.InlineStyle.WebVTTSize = c.Size, ""
+			}
+			if r.Bool() {
+				st.InlineStyle.WebVTTVertical, it.InlineStyle.WebVTTVertical = c.Vertic, ""
+			}
+			it.Style = st
+			s.Styles[st.ID] = st
+		}
 		if c.Region != "" {
 			it.Region = s.Regions[c.Region]
 		}
